@@ -26,15 +26,26 @@ func (fold *fold) Exit(node *Node) {
 		newNode.SetType(leafType)
 	}
 
+	// An integer literal retyped by the checker (as a float or narrower int
+	// argument) must not be folded with int arithmetic: 1/2 is 0.5 as a
+	// float64 argument and 300/2 wraps as a uint8 one.
+	isInt := func(n Node) (*IntegerNode, bool) {
+		i, ok := n.(*IntegerNode)
+		if ok && i.Type() != nil && i.Type().Kind() != reflect.Int {
+			return nil, false
+		}
+		return i, ok
+	}
+
 	switch n := (*node).(type) {
 	case *UnaryNode:
 		switch n.Operator {
 		case "-":
-			if i, ok := n.Node.(*IntegerNode); ok {
+			if i, ok := isInt(n.Node); ok {
 				patchWithType(&IntegerNode{Value: -i.Value}, n.Node.Type())
 			}
 		case "+":
-			if i, ok := n.Node.(*IntegerNode); ok {
+			if i, ok := isInt(n.Node); ok {
 				patchWithType(&IntegerNode{Value: i.Value}, n.Node.Type())
 			}
 		}
@@ -42,8 +53,8 @@ func (fold *fold) Exit(node *Node) {
 	case *BinaryNode:
 		switch n.Operator {
 		case "+":
-			if a, ok := n.Left.(*IntegerNode); ok {
-				if b, ok := n.Right.(*IntegerNode); ok {
+			if a, ok := isInt(n.Left); ok {
+				if b, ok := isInt(n.Right); ok {
 					patchWithType(&IntegerNode{Value: a.Value + b.Value}, a.Type())
 				}
 			}
@@ -53,20 +64,20 @@ func (fold *fold) Exit(node *Node) {
 				}
 			}
 		case "-":
-			if a, ok := n.Left.(*IntegerNode); ok {
-				if b, ok := n.Right.(*IntegerNode); ok {
+			if a, ok := isInt(n.Left); ok {
+				if b, ok := isInt(n.Right); ok {
 					patchWithType(&IntegerNode{Value: a.Value - b.Value}, a.Type())
 				}
 			}
 		case "*":
-			if a, ok := n.Left.(*IntegerNode); ok {
-				if b, ok := n.Right.(*IntegerNode); ok {
+			if a, ok := isInt(n.Left); ok {
+				if b, ok := isInt(n.Right); ok {
 					patchWithType(&IntegerNode{Value: a.Value * b.Value}, a.Type())
 				}
 			}
 		case "/":
-			if a, ok := n.Left.(*IntegerNode); ok {
-				if b, ok := n.Right.(*IntegerNode); ok {
+			if a, ok := isInt(n.Left); ok {
+				if b, ok := isInt(n.Right); ok {
 					if b.Value == 0 {
 						fold.err = &file.Error{
 							Location: (*node).Location(),
@@ -78,8 +89,8 @@ func (fold *fold) Exit(node *Node) {
 				}
 			}
 		case "%":
-			if a, ok := n.Left.(*IntegerNode); ok {
-				if b, ok := n.Right.(*IntegerNode); ok {
+			if a, ok := isInt(n.Left); ok {
+				if b, ok := isInt(n.Right); ok {
 					if b.Value == 0 {
 						fold.err = &file.Error{
 							Location: (*node).Location(),
@@ -91,8 +102,8 @@ func (fold *fold) Exit(node *Node) {
 				}
 			}
 		case "**":
-			if a, ok := n.Left.(*IntegerNode); ok {
-				if b, ok := n.Right.(*IntegerNode); ok {
+			if a, ok := isInt(n.Left); ok {
+				if b, ok := isInt(n.Right); ok {
 					patch(&FloatNode{Value: math.Pow(float64(a.Value), float64(b.Value))})
 				}
 			}
